@@ -253,9 +253,20 @@ func init() {
 							return
 						}
 						in += " decoded from " + h.Hex(truncB(msg, 40))
-						it = msgItem(m.(*ast.DataMessage))
+						dm, isData := m.(*ast.DataMessage)
+						if !isData {
+							c.Fail("data-decoded-as-control", in, m.Type())
+							c.Case(0, true, "bad")
+							return
+						}
+						it = msgItem(dm)
 					}
 					b := it.ToBytes()
+					if len(b) < 2 || len(b) < 1+int(b[0]&3) {
+						c.Fail("accepted-item-header", in, fmt.Sprintf("ToBytes()=%x", truncB(b, 12)))
+						c.Case(0, true, "bad")
+						return
+					}
 					nlen := int(b[0] & 3)
 					decl := 0
 					for j := 0; j < nlen; j++ {
